@@ -198,7 +198,9 @@ func (x *c06Run) doSet(k int, cost int64, ttl time.Duration, useCostFn bool) {
 			return
 		}
 		nv, nok := x.rawGet(k)
-		if nok != oldOK || (nok && nv != oldV) {
+		// a value that carries (or may still carry) a deadline can reach it between the two reads: real time runs on
+		mayHaveExpired := oldOK && !nok && old != nil && old.dLo != 0 && x.st.VerifNowNano() >= old.dLo
+		if (nok != oldOK || (nok && nv != oldV)) && !mayHaveExpired {
 			x.fail("rejected-set-changed-state", fmt.Sprintf("Set(k%d) was rejected for cost %d > MaxSize but Get changed from (%#x,%v) to (%#x,%v)", k, cost, oldV, oldOK, nv, nok))
 		}
 		return
@@ -761,6 +763,62 @@ func c06PooledEntries(r *Run, idx int) {
 	r.Distinct(fmt.Sprintf("pooled-entries/%s", a.kind))
 }
 
+// c06DoorkeeperAfterChurn: "Set returns false only when ... the doorkeeper sees the key for the first time". A
+// doorkeeper cache (plain, or loading) takes in tens of thousands of keys that are offered once and never again - every shard's
+// filter has aged several times by then. After that a key offered to the cache repeatedly must be admitted: the
+// filter may age at one insertion (and forget the offer before), but not at every one, so of three back-to-back
+// offers of one absent key at least one succeeds; once it has, the value is readable. Nothing else runs in between.
+func c06DoorkeeperAfterChurn(r *Run, idx int) {
+	rng := r.Rng(int64(6600 + idx))
+	maxSize := []int64{100, 1000, 5000}[idx%3]
+	kind := []string{"plain", "loading"}[idx/3%2]
+	a, err := newAnyCache(kind, anyOpts{MaxSize: maxSize, Doorkeeper: true,
+		Loader: func(ctx context.Context, k int) (theine.Loaded[int64], error) {
+			return theine.Loaded[int64]{Value: int64(k), Cost: 1}, nil
+		}})
+	if err != nil {
+		r.Broken("build: %v", err)
+		return
+	}
+	defer a.closeAPI()
+	churn := 20000 + rng.Intn(30000)
+	firstTimeAdmitted := 0
+	for i := 0; i < churn; i++ {
+		if a.set(1_000_000+i, int64(i), 1, 0) {
+			firstTimeAdmitted++ // a false positive of the filter: allowed
+		}
+	}
+	a.wait()
+	refused := 0
+	for j := 0; j < 300; j++ {
+		k := 5_000_000 + idx*1000 + j
+		admitted := -1
+		for try := 0; try < 3; try++ {
+			if a.set(k, int64(k)*3, 1, 0) {
+				admitted = try
+				break
+			}
+		}
+		if admitted < 0 {
+			refused++
+			if refused == 1 {
+				r.Violate("set-false-for-a-key-the-doorkeeper-has-seen/after-one-off-churn/"+kind, fmt.Sprintf("round %d (%s, MaxSize %d, doorkeeper on): after %d keys offered once each, key %d was offered three times in a row with cost 1 and refused every time", idx, kind, maxSize, churn, k),
+					map[string]any{"round": idx, "cache": kind, "maxsize": maxSize, "one_off_keys": churn})
+			}
+			continue
+		}
+		if v, ok, _ := a.get(context.Background(), k); !ok || v != int64(k)*3 {
+			r.Violate("set-true-not-readable/doorkeeper/after-one-off-churn/"+kind, fmt.Sprintf("round %d (%s, MaxSize %d, doorkeeper on): Set(%d) returned true on offer %d, the Get right after returned (%d,%v)", idx, kind, maxSize, k, admitted+1, v, ok),
+				map[string]any{"round": idx, "cache": kind, "maxsize": maxSize})
+			break
+		}
+	}
+	r.Eval(1)
+	r.Count("doorkeeper_churn_rounds", 1)
+	r.Count("doorkeeper_first_time_keys_admitted_by_false_positive", int64(firstTimeAdmitted))
+	r.Distinct(fmt.Sprintf("doorkeeper-after-churn/%s/%d", kind, maxSize))
+}
+
 func runC06(r *Run) {
 	defer func() {
 		for i := 0; i < r.Pick(4, 24); i++ {
@@ -771,6 +829,9 @@ func runC06(r *Run) {
 		}
 		for i := 0; i < r.Pick(3, 12); i++ {
 			c06ReorderedCostDeltas(r, r.Shard*12+i)
+		}
+		for i := 0; i < r.Pick(1, 6); i++ {
+			c06DoorkeeperAfterChurn(r, r.Shard*6+i)
 		}
 	}()
 	r.Rule("case = one sequential operation sequence (Set / SetWithTTL / Delete / loading Get / virtual-time step / tick / probe; costs 1..room and deliberately oversize; doorkeeper on/off; cost function on/off; plain and loading) checked step by step against a reference model whose occupancy never exceeds MaxSize. " +
